@@ -8,6 +8,7 @@ CONSTANTS
   Fmts = {"bc"}
   NFiles = {2}
   Lazy = {"none"}
+  ProbeMax = 5
   Touches = {"lookup", "getitem"}
   Variant = "stale_ext"
 INVARIANT TypeOK
